@@ -1,5 +1,19 @@
 use crate::{ErrorCode, Packet, Socket, Window};
+#[cfg(rs_tftpd_verif)]
+use crate::verif::{
+    thread::{self, JoinHandle},
+    time::Instant,
+};
+#[cfg(not(rs_tftpd_verif))]
 use std::thread::JoinHandle;
+#[cfg(rs_tftpd_verif)]
+use std::{
+    error::Error,
+    fs::{self, File},
+    path::PathBuf,
+    time::Duration,
+};
+#[cfg(not(rs_tftpd_verif))]
 use std::{
     error::Error,
     fs::{self, File},
@@ -81,6 +95,8 @@ impl<T: Socket + ?Sized> Worker<T> {
 
         let handle = thread::spawn(move || {
             let handle_send = || -> Result<(), Box<dyn Error>> {
+                #[cfg(rs_tftpd_verif)]
+                crate::verif::fs_point("open", &file_path);
                 self.send_file(File::open(&file_path)?, check_response)?;
 
                 Ok(())
@@ -116,6 +132,8 @@ impl<T: Socket + ?Sized> Worker<T> {
 
         let handle = thread::spawn(move || {
             let handle_receive = || -> Result<(), Box<dyn Error>> {
+                #[cfg(rs_tftpd_verif)]
+                crate::verif::fs_point("create", &file_path);
                 self.receive_file(File::create(&file_path)?)?;
 
                 Ok(())
@@ -135,6 +153,8 @@ impl<T: Socket + ?Sized> Worker<T> {
                         &file_path.file_name().unwrap().to_string_lossy(),
                         remote_addr
                     );
+                    #[cfg(rs_tftpd_verif)]
+                    crate::verif::fs_point(if clean_on_error { "remove" } else { "keep" }, &file_path);
                     if clean_on_error && fs::remove_file(&file_path).is_err() {
                         eprintln!("Error while cleaning {}", &file_path.to_str().unwrap());
                     }
@@ -260,6 +280,8 @@ impl<T: Socket + ?Sized> Worker<T> {
     }
 
     fn send_packet(&self, packet: &Packet) -> Result<(), Box<dyn Error>> {
+        #[cfg(rs_tftpd_verif)]
+        use crate::verif::std_shadow as std;
         for i in 0..self.repeat_amount {
             if i > 0 {
                 std::thread::sleep(DEFAULT_DUPLICATE_DELAY);
